@@ -73,9 +73,19 @@ def make_type(spec: str):
     return t
 
 
+class MyInt(int):
+    """An int subclass (what enum.IntEnum members, numpy ints, ... are to isinstance)."""
+
+
 def revive(v):
     if v == "$object":
         return object()
+    if isinstance(v, str) and v.startswith("$HTTPStatus:"):
+        import http
+
+        return http.HTTPStatus(int(v.split(":")[1]))
+    if isinstance(v, str) and v.startswith("$MyInt:"):
+        return MyInt(int(v.split(":")[1]))
     if isinstance(v, list):
         return [revive(x) for x in v]
     if isinstance(v, tuple):
@@ -125,6 +135,13 @@ def is_plain_int(x) -> bool:
     return isinstance(x, int) and not isinstance(x, bool)
 
 
+def norm(v):
+    """Case value as the model should see it: int subclasses are integers."""
+    if isinstance(v, str) and (v.startswith("$HTTPStatus:") or v.startswith("$MyInt:")):
+        return int(v.split(":")[1])
+    return v
+
+
 def name_heuristic(name: str):
     n = name.lower()
     if "auth" in n or "unauthoriz" in n or "credential" in n:
@@ -147,7 +164,7 @@ def model_default(case: dict, strict: bool, exc: BaseException):
         if isinstance(exc, MARKERS[m][0]):
             return MARKERS[m][1]
     attrs = case.get("attrs") or {}
-    status, code = attrs.get("status"), attrs.get("code")
+    status, code = norm(attrs.get("status")), norm(attrs.get("code"))
     chosen = None
     if status is None or (is_plain_int(status) and status == 0):
         chosen = code
@@ -174,7 +191,7 @@ def model_default(case: dict, strict: bool, exc: BaseException):
 def model_http(case: dict, exc: BaseException):
     attrs = case.get("attrs") or {}
     for a in ("status", "status_code", "code"):
-        val = attrs.get(a)
+        val = norm(attrs.get(a))
         if isinstance(val, bool):
             return None
         if is_plain_int(val):
@@ -284,6 +301,7 @@ def signals(case: dict) -> int:
 
 def hostile(case: dict) -> bool:
     def h(v):
+        v = norm(v)
         return not (v is None or is_plain_int(v) and abs(v) < 10**6 or isinstance(v, str) and v.isascii())
 
     return any(h(v) for v in (case.get("attrs") or {}).values()) or any(h(v) for v in case.get("args", []))
@@ -379,6 +397,8 @@ def value_st():
         st.booleans(),
         st.sampled_from(DOC_CODES),
         st.sampled_from(DOC_CODES),
+        st.sampled_from([401, 403, 404, 408, 409, 429, 500, 503]).map(lambda c: f"$HTTPStatus:{c}"),
+        st.sampled_from(DOC_CODES + [0, 600]).map(lambda c: f"$MyInt:{c}"),
         st.sampled_from(BOUNDARY),
         st.integers(-50, 1100),
         st.floats(allow_nan=True, allow_infinity=True),
@@ -437,6 +457,18 @@ def enum_ints(tier: str):
                 yield {"type": t, "attrs": {attr: code}}
             yield {"type": t, "args": [code]}
             yield {"type": t, "args": ["msg", code]}
+    for code in DOC_CODES:
+        for t in ("dyn:Plain", "dyn:MyTimeoutThing"):
+            for attr in ("status", "code", "status_code"):
+                yield {"type": t, "attrs": {attr: f"$MyInt:{code}"}}
+                if code != 422 or True:
+                    try:
+                        import http
+
+                        http.HTTPStatus(code)
+                        yield {"type": t, "attrs": {attr: f"$HTTPStatus:{code}"}}
+                    except ValueError:
+                        pass
     # status + code conflicts on the documented codes
     for a, b in itertools.product(DOC_CODES + [0, 200, None], repeat=2):
         for t in ("dyn:Plain", "dyn:ConnectionLost", "marker:ConcurrencyError"):
@@ -510,7 +542,7 @@ PROP = Property(
     rule=(
         "Hypothesis-generated exception objects: type in {the four markers and subclasses, TimeoutError and subclasses, builtins, "
         "dynamically created classes whose names do/do not contain each heuristic substring in mixed case} x values for "
-        "status/status_code/code/sqlstate/args drawn from None, bools, documented codes, boundaries (99/100/499/500/599/600), "
+        "status/status_code/code/sqlstate/args drawn from None, bools, documented codes (also as int subclasses: http.HTTPStatus members, a custom int subclass), boundaries (99/100/499/500/599/600), "
         "huge ints, floats incl. NaN/inf, text, bytes, lists, tuples, dicts, object(); directed so that the attribute a "
         "classifier reads is present. Oracle: returns an ErrorClass, never raises, equals an independent table+precedence "
         "model written from the docstrings (None = not pinned by the docs, e.g. bools, http 422, non-string sqlstate), strict "
